@@ -771,3 +771,171 @@ Proof.
     destruct (six_digits_int _ S6) as [v ->]. cbn [dbind]. rewrite tz_cleanup_sub_answer. reflexivity.
   - cbn [dbind]. rewrite tz_cleanup_sub_answer. reflexivity.
 Qed.
+
+(* ================================================================== 6.  iso_format_rx = iso_format *)
+(* the two rewrites of value_string applied to the text isoformat() produces give datetime_text *)
+From BS Require Import Proofs.C16.
+Local Open Scope Z_scope.
+
+Definition dig (c : N) : bool := ((48 <=? c) && (c <=? 57))%N.
+
+Lemma dig_range c : dig c = true -> (48 <= c <= 57)%N.
+Proof. unfold dig. intros H. apply andb_true_iff in H. destruct H as [H1 H2]. apply N.leb_le in H1. apply N.leb_le in H2. lia. Qed.
+Lemma dig_dchar k : 0 <= k <= 9 -> dig (dchar k) = true.
+Proof. intros H. unfold dig, dchar. apply andb_true_iff. split; apply N.leb_le; lia. Qed.
+Lemma dig_isd c : dig c = true -> isd c = true.
+Proof.
+  intros H. pose proof (dig_range c H) as R. unfold isd, is_digit.
+  replace (c <? 128)%N with true by (symmetry; apply N.ltb_lt; lia). exact H.
+Qed.
+Lemma dig_nosgn c : dig c = true -> sgn c = false.
+Proof.
+  intros H. apply dig_range in H. unfold sgn. apply orb_false_iff. split; apply N.eqb_neq; unfold C_PLUS, C_DASH; lia.
+Qed.
+Lemma dig_nodot c : dig c = true -> (c =? C_DOT)%N = false.
+Proof. intros H. apply dig_range in H. apply N.eqb_neq. unfold C_DOT. lia. Qed.
+
+Lemma us_find_nodot y t pos : (y =? C_DOT)%N = false -> us_find pos (y :: t) = us_find (S pos) t.
+Proof. intros H. cbn [us_find]. rewrite H. reflexivity. Qed.
+
+Lemma us_find_hit pos u1 u2 u3 u4 u5 u6 r :
+  isd u1 = true -> isd u2 = true -> isd u3 = true -> isd u4 = true -> isd u5 = true -> isd u6 = true ->
+  us_find pos (C_DOT :: u1 :: u2 :: u3 :: u4 :: u5 :: u6 :: r) = Some pos.
+Proof.
+  intros H1 H2 H3 H4 H5 H6. cbn [us_find]. unfold six_digits. cbn [take_p]. rewrite H1, H2, H3, H4, H5, H6. reflexivity.
+Qed.
+
+Lemma tz_cleanup_nosign y t : sgn y = false -> tz_cleanup (y :: t) = y :: tz_cleanup t.
+Proof. intros H. cbn [tz_cleanup]. unfold tz_at. cbn [take_p]. rewrite H. reflexivity. Qed.
+
+Lemma tz_cleanup_dash a b c r : (c =? C_COLON)%N = false ->
+  tz_cleanup (C_DASH :: a :: b :: c :: r) = C_DASH :: tz_cleanup (a :: b :: c :: r).
+Proof.
+  intros H. cbn [tz_cleanup]. replace (tz_at (C_DASH :: a :: b :: c :: r)) with false; [reflexivity|]. symmetry. unfold tz_at.
+  change (take_p sgn 1 (C_DASH :: a :: b :: c :: r)) with (Some (a :: b :: c :: r)). cbn [obind].
+  change (take_p isd 2 (a :: b :: c :: r)) with (if isd a then if isd b then Some (c :: r) else None else None).
+  destruct (isd a); [|reflexivity]. destruct (isd b); [|reflexivity]. cbn [obind expect]. rewrite H. reflexivity.
+Qed.
+
+Lemma take2_isd a b r : isd a = true -> isd b = true -> take_p isd 2 (a :: b :: r) = Some r.
+Proof. intros H1 H2. cbn [take_p]. rewrite H1, H2. reflexivity. Qed.
+Lemma take1_sgn sg r : sgn sg = true -> take_p sgn 1 (sg :: r) = Some r.
+Proof. intros H. cbn [take_p]. rewrite H. reflexivity. Qed.
+Lemma expect_colon r : expect C_COLON (C_COLON :: r) = Some r.
+Proof. reflexivity. Qed.
+
+Lemma tz_cleanup_off6 sg a b c d :
+  isd a = true -> isd b = true -> isd c = true -> isd d = true -> sgn a = false -> sgn b = false -> sgn c = false -> sgn d = false ->
+  tz_cleanup [sg; a; b; C_COLON; c; d] = [sg; a; b; C_COLON; c; d].
+Proof.
+  intros Ia Ib Ic Id Sa Sb Sc Sd.
+  assert (E : tz_cleanup [sg; a; b; C_COLON; c; d] = sg :: tz_cleanup [a; b; C_COLON; c; d]).
+  { cbn [tz_cleanup]. replace (tz_at [sg; a; b; C_COLON; c; d]) with false; [reflexivity|]. symmetry. unfold tz_at.
+    destruct (sgn sg) eqn:Ss; [|cbn [take_p]; rewrite Ss; reflexivity].
+    rewrite take1_sgn by exact Ss. cbn [obind]. rewrite take2_isd by assumption. cbn [obind]. rewrite expect_colon. cbn [obind].
+    rewrite take2_isd by assumption. reflexivity. }
+  rewrite E. rewrite (tz_cleanup_nosign a) by exact Sa. rewrite (tz_cleanup_nosign b) by exact Sb.
+  rewrite (tz_cleanup_nosign C_COLON) by reflexivity. rewrite (tz_cleanup_nosign c) by exact Sc.
+  rewrite (tz_cleanup_nosign d) by exact Sd. reflexivity.
+Qed.
+
+Lemma tz_cleanup_off9 sg a b c d e g : sgn sg = true ->
+  isd a = true -> isd b = true -> isd c = true -> isd d = true -> isd e = true -> isd g = true ->
+  tz_cleanup [sg; a; b; C_COLON; c; d; C_COLON; e; g] = [sg; a; b; C_COLON; c; d].
+Proof.
+  intros Ss Ia Ib Ic Id Ie Ig. cbn [tz_cleanup].
+  replace (tz_at [sg; a; b; C_COLON; c; d; C_COLON; e; g]) with true; [reflexivity|]. symmetry. unfold tz_at.
+  rewrite take1_sgn by exact Ss. cbn [obind]. rewrite take2_isd by assumption. cbn [obind]. rewrite expect_colon. cbn [obind].
+  rewrite take2_isd by assumption. cbn [obind]. rewrite expect_colon. cbn [obind]. rewrite take2_isd by assumption. reflexivity.
+Qed.
+
+Lemma int_pad6 v : 0 <= v < 1000000 -> py_int_digits (pad6 v) 0 = Some v.
+Proof.
+  intros H. unfold pad6. cbn [py_int_digits].
+  rewrite (udigit_dchar (v / 100000)) by (dm; lia). rewrite (udigit_dchar (v / 10000 mod 10)) by (dm; lia).
+  rewrite (udigit_dchar (v / 1000 mod 10)) by (dm; lia). rewrite (udigit_dchar (v / 100 mod 10)) by (dm; lia).
+  rewrite (udigit_dchar (v / 10 mod 10)) by (dm; lia). rewrite (udigit_dchar (v mod 10)) by (dm; lia).
+  f_equal. dm. lia.
+Qed.
+
+Ltac dgt := first [ reflexivity | apply dig_nosgn; assumption | apply dig_nodot; assumption | apply dig_isd; assumption ].
+
+(* the text over abstract characters: fourteen digits of date and time, an optional six-digit fraction, the offset with
+   optional seconds *)
+Lemma vst_abstract Y1 Y2 Y3 Y4 M1 M2 D1 D2 h1 h2 mi1 mi2 s1 s2 u1 u2 u3 u4 u5 u6 k1 k2 k3 SG oh1 oh2 om1 om2 os1 os2 v
+  (hasfrac hassec : bool) :
+  forallb dig [Y1; Y2; Y3; Y4; M1; M2; D1; D2; h1; h2; mi1; mi2; s1; s2; u1; u2; u3; u4; u5; u6; k1; k2; k3;
+               oh1; oh2; om1; om2; os1; os2] = true ->
+  sgn SG = true -> py_int_digits [u1; u2; u3; u4; u5; u6] 0 = Some v -> pad3 (v / 1000) = [k1; k2; k3] ->
+  value_string_tail
+    ([Y1; Y2; Y3; Y4; C_DASH; M1; M2; C_DASH; D1; D2; C_T; h1; h2; C_COLON; mi1; mi2; C_COLON; s1; s2]
+     ++ (if hasfrac then [C_DOT; u1; u2; u3; u4; u5; u6] else [])
+     ++ [SG; oh1; oh2; C_COLON; om1; om2] ++ (if hassec then [C_COLON; os1; os2] else [])) =
+  DOk ([Y1; Y2; Y3; Y4; C_DASH; M1; M2; C_DASH; D1; D2; C_T; h1; h2; C_COLON; mi1; mi2; C_COLON; s1; s2]
+       ++ (if hasfrac then [C_DOT; k1; k2; k3] else []) ++ [SG; oh1; oh2; C_COLON; om1; om2]).
+Proof.
+  intros F SS PI P3. cbn [forallb] in F.
+  repeat match goal with H : (_ && _)%bool = true |- _ => apply andb_true_iff in H; destruct H end.
+  assert (NS : (SG =? C_DOT)%N = false).
+  { unfold sgn in SS. apply orb_true_iff in SS. destruct SS as [E|E]; apply N.eqb_eq in E; subst SG; reflexivity. }
+  rewrite value_string_tail_answer. f_equal. unfold us_to_ms.
+  assert (OFF : forall tl, tl = [] \/ tl = [C_COLON; os1; os2] ->
+            us_find 26 ([SG; oh1; oh2; C_COLON; om1; om2] ++ tl) = None /\ us_find 19 ([SG; oh1; oh2; C_COLON; om1; om2] ++ tl) = None).
+  { intros tl [-> | ->]; cbn [app]; split; rewrite us_find_nodot by exact NS; repeat (rewrite us_find_nodot by dgt); reflexivity. }
+  assert (TZ : tz_cleanup ([SG; oh1; oh2; C_COLON; om1; om2] ++ (if hassec then [C_COLON; os1; os2] else [])) =
+               [SG; oh1; oh2; C_COLON; om1; om2]).
+  { destruct hassec; cbn [app]; [apply tz_cleanup_off9 | apply tz_cleanup_off6]; first [exact SS | dgt]. }
+  destruct hasfrac; cbn [app].
+  - repeat (rewrite us_find_nodot by dgt). rewrite us_find_hit by dgt.
+    cbn [firstn skipn Nat.add]. rewrite PI, P3. cbn [app].
+    repeat first [ rewrite tz_cleanup_nosign by dgt | rewrite tz_cleanup_dash by reflexivity ].
+    cbn [app] in TZ. destruct hassec; cbn [app] in *; rewrite TZ; reflexivity.
+  - repeat (rewrite us_find_nodot by dgt).
+    replace (us_find 19 (SG :: oh1 :: oh2 :: C_COLON :: om1 :: om2 :: (if hassec then [C_COLON; os1; os2] else []))) with (@None nat).
+    2:{ symmetry. apply (OFF (if hassec then [C_COLON; os1; os2] else [])). destruct hassec; auto. }
+    repeat first [ rewrite tz_cleanup_nosign by dgt | rewrite tz_cleanup_dash by reflexivity ].
+    cbn [app] in TZ. destruct hassec; cbn [app] in *; rewrite TZ; reflexivity.
+Qed.
+
+Theorem value_string_tail_isoformat f o :
+  0 <= f_year f < 10000 -> 0 <= f_month f < 100 -> 0 <= f_day f < 100 -> 0 <= f_hour f < 100 ->
+  0 <= f_minute f < 100 -> 0 <= f_second f < 100 -> 0 <= f_us f < 1000000 -> Z.abs o < 360000 ->
+  value_string_tail (py_isoformat f o) = DOk (datetime_text f o).
+Proof.
+  intros Ry Rmo Rd Rh Rmi Rs Rus Ro.
+  pose proof (vst_abstract
+    (dchar (f_year f / 1000)) (dchar (f_year f / 100 mod 10)) (dchar (f_year f / 10 mod 10)) (dchar (f_year f mod 10))
+    (dchar (f_month f / 10)) (dchar (f_month f mod 10)) (dchar (f_day f / 10)) (dchar (f_day f mod 10))
+    (dchar (f_hour f / 10)) (dchar (f_hour f mod 10)) (dchar (f_minute f / 10)) (dchar (f_minute f mod 10))
+    (dchar (f_second f / 10)) (dchar (f_second f mod 10))
+    (dchar (f_us f / 100000)) (dchar (f_us f / 10000 mod 10)) (dchar (f_us f / 1000 mod 10)) (dchar (f_us f / 100 mod 10))
+    (dchar (f_us f / 10 mod 10)) (dchar (f_us f mod 10))
+    (dchar (f_us f / 1000 / 100)) (dchar (f_us f / 1000 / 10 mod 10)) (dchar (f_us f / 1000 mod 10))
+    (if o <? 0 then C_DASH else C_PLUS)
+    (dchar (Z.abs o / 3600 / 10)) (dchar (Z.abs o / 3600 mod 10)) (dchar (Z.abs o / 60 mod 60 / 10)) (dchar (Z.abs o / 60 mod 60 mod 10))
+    (dchar (Z.abs o mod 60 / 10)) (dchar (Z.abs o mod 60 mod 10))
+    (f_us f) (negb (f_us f =? 0)) (negb (Z.abs o mod 60 =? 0))) as H.
+  assert (A : 0 <= Z.abs o) by lia.
+  lapply H; [clear H; intros H | cbn [forallb]; rewrite !dig_dchar by (dm; lia); reflexivity].
+  lapply H; [clear H; intros H | destruct (o <? 0); reflexivity].
+  lapply H; [clear H; intros H | exact (int_pad6 (f_us f) Rus)].
+  lapply H; [clear H; intros H | reflexivity].
+  unfold py_isoformat, datetime_text, date_text, time_text, offset_text, pad4, pad2, pad3, pad6. cbv zeta.
+  rewrite <- !app_assoc. cbn [app].
+  destruct (f_us f =? 0); destruct (Z.abs o mod 60 =? 0); cbn [negb app] in H |- *; exact H.
+Qed.
+
+(* value_string(datetime) run on the regenerated regexes = the direct function, for every value, in every zone whose
+   offsets are below 24 h (Python's own bound for a UTC offset) *)
+Theorem iso_format_rx_is_iso_format (off_local off_utc : Z -> Z) w :
+  (forall u, Z.abs (off_utc u) < 86400) -> iso_format_rx off_local off_utc w = iso_format off_local off_utc w.
+Proof.
+  intros B. unfold iso_format_rx, iso_format. destruct (astimezone_naive off_local off_utc w) as [[l o]| |] eqn:E; [|reflexivity|reflexivity].
+  cbn [dbind fst snd]. unfold astimezone_naive in E.
+  destruct (in_range (w - off_local w * US_SEC)); [|discriminate].
+  destruct (in_range (w - off_local w * US_SEC + off_utc (w - off_local w * US_SEC) * US_SEC)) eqn:L; [|discriminate].
+  inversion E; subst l o. clear E. rewrite in_range_fields in L.
+  pose proof L as V. rewrite valid_fields_iff in V. destruct V as [Hy [Hd [Hh [Hmi [Hs Hus]]]]].
+  destruct (fields_digit_ranges _ L) as (Ry & Rmo & Rd & Rh & Rmi & Rs & _).
+  apply value_string_tail_isoformat; try assumption; try lia. specialize (B (w - off_local w * US_SEC)). lia.
+Qed.
